@@ -3,6 +3,15 @@ import Postcard.Model.Ser
 import Postcard.Model.De
 import Postcard.Model.Flavor
 import Postcard.Spec.Wire
+import Postcard.Model.Entry
+import Postcard.Model.SexpSchema
+import Postcard.Model.SchemaHash
+import Postcard.Model.SchemaFmt
+import Postcard.Model.SchemaSer
+import Postcard.Model.Cobs
+import Postcard.Model.Crc
+import Postcard.Spec.Cobs
+import Postcard.Spec.Fnv
 /-
   pcmodel — line-protocol driver.  One operation per input line, one answer
   line per operation.  Imports model/spec files only (core Lean), so it links
@@ -17,6 +26,70 @@ def resStr {α} (f : α → String) : R α → String
 def deAnswer : R (Val × List Byte) → String
   | .ok (v, r) => s!"ok {valToStr v} rest={hexOfBytes r}"
   | .error e => "err " ++ e.name
+
+def serAnswer : R (List Byte) → String
+  | .ok b => "ok " ++ hexOfBytes b
+  | .error e => "err " ++ e.name
+
+def schemaDeAnswer : R (Schema × List Byte) → String
+  | .ok (v, r) => s!"ok {schemaToStr v} rest={hexOfBytes r}"
+  | .error e => "err " ++ e.name
+
+/-- insertion sort of strings (canonical order for sets) -/
+def sortStrings (xs : List String) : List String :=
+  xs.foldl (fun acc x =>
+    let (lo, hi) := acc.span (fun y => y < x)
+    lo ++ x :: hi) []
+
+/-- dispatch on a catalogue algorithm name: width, parameters, checksum bytes on the wire -/
+def withAlg {β} (name : String) (k : (w : Nat) → CrcAlg w → Nat → β) (bad : β) : β :=
+  match name with
+  | "CRC_8_SMBUS" => k 8 CRC_8_SMBUS 1
+  | "CRC_8_MAXIM_DOW" => k 8 CRC_8_MAXIM_DOW 1
+  | "CRC_12_UMTS" => k 12 CRC_12_UMTS 2
+  | "CRC_16_IBM_SDLC" => k 16 CRC_16_IBM_SDLC 2
+  | "CRC_16_XMODEM" => k 16 CRC_16_XMODEM 2
+  | "CRC_32_ISO_HDLC" => k 32 CRC_32_ISO_HDLC 4
+  | "CRC_32_BZIP2" => k 32 CRC_32_BZIP2 4
+  | "CRC_64_ECMA_182" => k 64 CRC_64_ECMA_182 8
+  | "CRC_64_XZ" => k 64 CRC_64_XZ 8
+  | "CRC_82_DARC" => k 82 CRC_82_DARC 16
+  | _ => bad
+
+/-- to_slice_cobs / to_vec_cobs / to_allocvec_cobs: `Cobs::try_new(storage)?` then
+`serialize_with_flavor`. Returns final inner state and result. -/
+def cobsSerialize {σ} (F : Flavor σ (List Byte)) (s0 : σ) (feedF : (σ × EncSt) → (σ × EncSt) × R (List Byte)) :
+    σ × R (List Byte) :=
+  match Cobs.tryNew F s0 with
+  | (st, some e) => (st.1, .error e)
+  | (st, none) => let r := feedF st; (r.1.1, r.2)
+
+def cobsOfVal {σ} (F : Flavor σ (List Byte)) (s0 : σ) (v : Val) : σ × R (List Byte) :=
+  cobsSerialize F s0 (fun st => serializeWith (Cobs F) st v)
+
+/-- raw message bytes pushed one by one through the public Flavor API, then finalize -/
+def cobsOfBytes {σ} (F : Flavor σ (List Byte)) (s0 : σ) (m : List Byte) : σ × R (List Byte) :=
+  cobsSerialize F s0 (fun st =>
+    match defaultExtend (Cobs F).tryPush st m with
+    | (st', some e) => (st', .error e)
+    | (st', none) => (Cobs F).finalize st')
+
+/-- iterate take_from_bytes_cobs over a buffer until it is empty or a frame fails -/
+def cobsFrames (t : Ty) : Nat → List Byte → List String
+  | 0, _ => ["fuel"]
+  | fuel+1, buf =>
+    if buf.isEmpty then [] else
+    match (takeFromBytesCobs (fromBytes t) buf).1 with
+    | .error e => ["err " ++ e.name]
+    | .ok (v, rest) => ("ok " ++ valToStr v) :: (if rest.length < buf.length then cobsFrames t fuel rest else ["stuck"])
+
+def storageRun (storage : String) (cap : Nat) (fill : Byte)
+    (run : {σ : Type} → Flavor σ (List Byte) → σ → (σ → List Byte) → String) : String :=
+  match storage with
+  | "slice" => run Slice ⟨List.replicate cap fill, 0⟩ (fun s => s.mem)
+  | "hvec" => run HVec ⟨cap, []⟩ (fun _ => [])
+  | "alloc" => run AllocVec [] (fun _ => [])
+  | _ => "bad-op"
 
 def handle (line : String) : String :=
   match Sexp.parseLine line with
@@ -53,6 +126,107 @@ def handle (line : String) : String :=
     | "de", [t, .atom h] =>
       match tyOfSexp t, bytesOfHex h with
       | some t, some bs => deAnswer (dec t bs)
+      | _, _ => "bad-op"
+    | "key", [.atom p, sx] =>
+      match bytesOfHex p, schemaOfSexp sx with
+      | some p, some sc =>
+        let a := hashTyPath p sc
+        let b := hashTyPathOwned p (conv sc)
+        if a = b then "ok " ++ hexOfBytes a else "FAIL model hashers disagree"
+      | _, _ => "bad-op"
+    | "keydiff", [.atom _kind, .atom p, s1, s2] =>
+      match bytesOfHex p, schemaOfSexp s1, schemaOfSexp s2 with
+      | some p, some s1, some s2 =>
+        if hashTyPath p s1 = hashTyPath p s2 then "ok same" else "ok differ"
+      | _, _, _ => "bad-op"
+    | "keypath", [.atom p1, .atom p2, sx] =>
+      match bytesOfHex p1, bytesOfHex p2, schemaOfSexp sx with
+      | some p1, some p2, some sc =>
+        if hashTyPath p1 sc = hashTyPath p2 sc then "ok same" else "ok differ"
+      | _, _, _ => "bad-op"
+    | "pun", [sx] =>
+      match schemaOfSexp sx with
+      | some sc =>
+        let a := enc (serBorrowed sc)
+        let b := enc (serOwned (conv sc))
+        if a = b then "ok " ++ hexOfBytes a else "FAIL model punning"
+      | none => "bad-op"
+    | "deowned", [.atom h] =>
+      match bytesOfHex h with
+      | some bs => schemaDeAnswer (decOwnedBytes bs)
+      | none => "bad-op"
+    | "fmt", [sx] =>
+      match schemaOfSexp sx with
+      | some sc => "ok " ++ hexOfBytes (toPseudocode sc)
+      | none => "bad-op"
+    | "discover", [sx] =>
+      match schemaOfSexp sx with
+      | some sc =>
+        match discoverSet false sc with
+        | .ok l => "ok" ++ String.join ((sortStrings (l.map schemaToStr)).map (" " ++ ·))
+        | .error e => "err " ++ e.name
+      | none => "bad-op"
+    | "size", [v] =>
+      match valOfSexp v with
+      | some v => (match serializedSize v with | .ok n => s!"ok {n}" | .error e => "err " ++ e.name)
+      | none => "bad-op"
+    | "sercap", [.atom framing, .atom storage, .atom cap, v] =>
+      match cap.toNat?, valOfSexp v with
+      | some cap, some v =>
+        let fin (r : R (List Byte)) (mem : List Byte) : String :=
+          match r with
+          | .ok b => s!"ok {hexOfBytes b} mem={hexOfBytes mem}"
+          | .error e => s!"err {e.name} mem={hexOfBytes mem}"
+        if framing == "plain" then
+          storageRun storage cap 0xA5 (fun F s0 memOf => let r := serializeWith F s0 v; fin r.2 (memOf r.1))
+        else if framing == "cobs" then
+          storageRun storage cap 0xA5 (fun F s0 memOf => let r := cobsOfVal F s0 v; fin r.2 (memOf r.1))
+        else
+          withAlg framing (fun _ alg nbytes =>
+            storageRun storage cap 0xA5 (fun F s0 memOf =>
+              let r := serializeWith (CrcSer alg nbytes F) (s0, alg.init) v; fin r.2 (memOf r.1.1))) "bad-op"
+      | _, _ => "bad-op"
+    | "cobsenc", [.atom storage, .atom cap, .atom h] =>
+      match cap.toNat?, bytesOfHex h with
+      | some cap, some m =>
+        storageRun storage cap 0xA5 (fun F s0 _ => serAnswer (cobsOfBytes F s0 m).2)
+      | _, _ => "bad-op"
+    | "cobsspec", [.atom h] =>
+      match bytesOfHex h with
+      | some m => "ok " ++ hexOfBytes (Spec.cobsEncode m ++ [0])
+      | none => "bad-op"
+    | "cobsval", [_t, v] =>
+      match valOfSexp v with
+      | some v => serAnswer (cobsOfVal AllocVec [] v).2
+      | none => "bad-op"
+    | "cobsframes", [t, .atom h] =>
+      match tyOfSexp t, bytesOfHex h with
+      | some t, some bs => "frames" ++ String.join ((cobsFrames t (bs.length + 2) bs).map (" | " ++ ·))
+      | _, _ => "bad-op"
+    | "cobsde", [t, .atom h] =>
+      match tyOfSexp t, bytesOfHex h with
+      | some t, some bs =>
+        let f := match (fromBytesCobs (fromBytes t) bs).1 with
+          | .ok v => "ok " ++ valToStr v | .error e => "err " ++ e.name
+        let k := match (takeFromBytesCobs (fromBytes t) bs).1 with
+          | .ok (v, r) => s!"ok {valToStr v} rest={hexOfBytes r}" | .error e => "err " ++ e.name
+        s!"from={f} take={k}"
+      | _, _ => "bad-op"
+    | "crcraw", [.atom alg, .atom h] =>
+      match bytesOfHex h with
+      | some m => withAlg alg (fun _ a nbytes => "ok " ++ hexOfBytes (leBytes nbytes (crc a m).toNat)) "bad-op"
+      | none => "bad-op"
+    | "crcser", [.atom alg, v] =>
+      match valOfSexp v with
+      | some v => withAlg alg (fun _ a nbytes => serAnswer (toAllocVecCrc a nbytes v)) "bad-op"
+      | none => "bad-op"
+    | "crcde", [.atom alg, t, .atom h] =>
+      match tyOfSexp t, bytesOfHex h with
+      | some t, some bs => withAlg alg (fun _ a nbytes => deAnswer (takeFromBytesCrc a nbytes (dec t) bs)) "bad-op"
+      | _, _ => "bad-op"
+    | "crcdex", [.atom alg, t, .atom _paylen, .atom h] =>
+      match tyOfSexp t, bytesOfHex h with
+      | some t, some bs => withAlg alg (fun _ a nbytes => deAnswer (takeFromBytesCrc a nbytes (dec t) bs)) "bad-op"
       | _, _ => "bad-op"
     | "hasty", [t, v] =>
       match tyOfSexp t, valOfSexp v with
